@@ -64,6 +64,15 @@ type clause struct {
 	bytecode bytecode
 }
 
+// sameClause reports whether a and b are one and the same clause: the same stored term and the same instruction array.
+// The stored terms of two clauses can be the same atom; their code, if any, is an array of their own.
+func sameClause(a, b *clause) bool {
+	if id(a.raw) != id(b.raw) || len(a.bytecode) != len(b.bytecode) {
+		return false
+	}
+	return len(a.bytecode) == 0 || &a.bytecode[0] == &b.bytecode[0]
+}
+
 func compileClause(head Term, body Term, env *Env) (clause, error) {
 	var c clause
 	c.compileHead(head, env)
